@@ -59,7 +59,9 @@ def run(ctx):
         ln = cur[int(m.group(1)) - 1]
         bad += 1
         kinds = "+".join(e["e"] for e in ln["edits"]) or "none"
-        if ln["prefixOK"] == 0:
+        if ln.get("afterErr", 0) > 0:
+            key = "edit:data-returned-after-read-error"
+        elif ln["prefixOK"] == 0:
             key = "edit:non-prefix-data-returned:" + kinds
         elif ln["delivered"] > int(m.group(2)):
             key = "edit:tampered-stream-accepted:" + kinds
